@@ -53,7 +53,10 @@ def lattice(rep, tier, seed):
             op = os.path.join(wd, "trace_%s_%s.ndjson" % (k, sc))
             r = vlib.sh(["timeout", "900", res["rec_lattice_%s_%s" % (k, sc)][0], pp, op])
             ls = open(op).read().splitlines() if os.path.exists(op) else []
-            if r.returncode != 0 or len(ls) != len(lines): raise vlib.ModelError("rec_lattice %s %s failed: %s" % (k, sc, r.stdout[-400:]))
+            if r.returncode != 0 or len(ls) != len(lines) or any(vlib.TERMINATE in l for l in ls):
+                # manif aborted on an exactly representable lattice element
+                rep.violations.append(("rec_lattice %s %s aborted with %d after %d of %d events: %s" % (k, sc, r.returncode, len(ls), len(lines), r.stdout[-300:].replace("\n", " ")), json.dumps({"e": "crash", "key": k + "_" + sc})))
+                ls = [l for l in ls if l.endswith("}") and vlib.TERMINATE not in l]
             evs += ls; rep.traces += 1
         # validate with the kind-specific configuration (constants Kind / Bound)
         n = min(vlib.NCPU, max(1, len(evs) // 60))
